@@ -12,6 +12,8 @@ the empty string, `~` is Python `None`).  Lines:
       names of the positional parameters, self included)                  -> ok
   opexport <path> <obj>      operation of the history: exportObject      -> none
   opunexport <path>          operation of the history: unexportObject    -> none
+  opfailed                   an exportObject of the history that raised (a class the library cannot use): the
+                             dispatcher's table is untouched, only the numbering of the operations advances -> none
   call <path> <iface|~> <member> <sig|~> <sender|~> <serial> <expectReply 0|1> <nargs>
        <names> <managedEnc> <outcome>            (<managedEnc> := <enc>: does building the
                                                   GetManagedObjects reply for <path> raise)
@@ -510,6 +512,7 @@ def stepLine (s : St) (line : String) : St × String :=
     match finish parseExport ts with
     | some (path, o) => ({ st := (step quietEnv s.st (.exportObj path o)).1 }, "none")
     | none => (s, "parse-error")
+  | ["opfailed"] => ({ s with st := { s.st with next := s.st.next + 1 } }, "none")
   | ["opunexport", p] =>
     match Driver.hexToChars? p with
     | some path => ({ st := (step quietEnv s.st (.unexportObj path)).1 }, "none")
